@@ -216,6 +216,8 @@ for lx in range(4):
 for lx, ly in ((1, 1), (1, 2), (2, 1), (2, 2)):
     K("c12_long_mul_%dx%d" % (lx, ly), "bigint", C12P, "long_mul(x,y): value == val(x)*val(y), normalised (scalar_mul by contract over an uninterpreted commutative product)", [BI + "long_mul"], strength="bounded", bound="x of %d, y of %d limbs" % (lx, ly), features=BOTH_VEC, zflags=("stubbing",), timeout=1200, tier="quick" if (lx, ly) == (1, 1) else "thorough")
     K("c12_large_mul_%dx%d" % (lx, ly), "bigint", C12P, "large_mul(x,y): value' = value*val(y) (one-limb y via small_mul, otherwise long_mul(y,x))", [BI + "large_mul"], strength="bounded", bound="x of %d, y of %d limbs" % (lx, ly), features=BOTH_VEC, zflags=("stubbing",), timeout=1200, tier="quick" if (lx, ly) in ((1, 1), (2, 1)) else "thorough")
+K("c12_long_mul_zero_limb", "bigint", C12P, "long_mul([x0], [0, y1]) == x0*y1 * 2^64: a zero low limb of the multiplier contributes nothing but keeps its position", [BI + "long_mul"], strength="bounded", bound="x of 1 limb, y = [0, y1]", features=BOTH_VEC, zflags=("stubbing",), timeout=900)
+K("c12_long_mul_zero_inner_limb", "bigint", C12P, "long_mul([x0], [y0, 0, y2]) == x0*y0 + x0*y2 * 2^128", [BI + "long_mul"], strength="bounded", bound="x of 1 limb, y = [y0, 0, y2]", features=["default"], zflags=("stubbing",), timeout=1800, tier="thorough")
 K("c12_mul_assign_wrappers", "bigint", C12P, "Bigint *= &Bigint and VecType *= &[Limb] (one-limb operands): value' = value * val(rhs)", ["bigint::Bigint::mul_assign", "stackvec::StackVec::mul_assign / heapvec::HeapVec::mul_assign"], strength="bounded", bound="one-limb operands", features=BOTH_VEC, zflags=("stubbing",), timeout=900)
 for lx, ly in ((1, 3), (3, 1)):
     K("c12_long_mul_%dx%d" % (lx, ly), "bigint", C12P, "long_mul(x,y): value == val(x)*val(y), normalised (scalar_mul by contract over an uninterpreted commutative product)", [BI + "long_mul"], strength="bounded", bound="x of %d, y of %d limbs" % (lx, ly), features=["default"], zflags=("stubbing",), timeout=2400, tier="thorough")
@@ -253,8 +255,8 @@ for t, md in (("f64", 769), ("f32", 114)):
     for ln in (1, 2, 3):
         K("pslow_positive_comp_%s_%d" % (t, ln), "slow", PSP, "positive_digit_comp::<%s> with Bigint::pow a ghost recorder (contract: value becomes digits*10^e): one scaling by 10^e; packed result == RNE(sticky) of the big integer's value (top 64 bits, bit length, all lower bits)" % t, ["slow::positive_digit_comp", "bigint::Bigint::hi64", "bigint::Bigint::bit_length"], strength="bounded", bound="scaled integer of %d limbs (all limb values)" % ln, features=["default", "compact"], zflags=("stubbing",), timeout=900, tier="quick" if ln in (1, 2) else "thorough")
 
-PMANT_CASES = ['pslow_pmant_i38_f0_all', 'pslow_pmant_i20_f18_all', 'pslow_pmant_i0_f23_z1_m21', 'pslow_pmant_i3_f0_all', 'pslow_pmant_i0_f5_z2_all', 'pslow_pmant_i0_f3_z3_all', 'pslow_pmant_i2_f3_all', 'pslow_pmant_i20_f0_all', 'pslow_pmant_i19_f2_all', 'pslow_pmant_i5_f5_m3', 'pslow_pmant_i2_f5_m4', 'pslow_pmant_i2_f5_m7', 'pslow_pmant_i0_f8_z2_m4', 'pslow_pmant_i21_f0_m20', 'pslow_pmant_i19_f3_m19', 'pslow_pmant_i10_f12_m21']
-PMANT_QUICK = ['pslow_pmant_i38_f0_all', 'pslow_pmant_i3_f0_all', 'pslow_pmant_i0_f5_z2_all', 'pslow_pmant_i5_f5_m3', 'pslow_pmant_i2_f5_m4', 'pslow_pmant_i0_f8_z2_m4', 'pslow_pmant_i2_f3_all', 'pslow_pmant_i21_f0_m20']
+PMANT_CASES = ['pslow_pmant_i19_f3_lead0', 'pslow_pmant_i38_f0_all', 'pslow_pmant_i20_f18_all', 'pslow_pmant_i0_f23_z1_m21', 'pslow_pmant_i3_f0_all', 'pslow_pmant_i0_f5_z2_all', 'pslow_pmant_i0_f3_z3_all', 'pslow_pmant_i2_f3_all', 'pslow_pmant_i20_f0_all', 'pslow_pmant_i19_f2_all', 'pslow_pmant_i5_f5_m3', 'pslow_pmant_i2_f5_m4', 'pslow_pmant_i2_f5_m7', 'pslow_pmant_i0_f8_z2_m4', 'pslow_pmant_i21_f0_m20', 'pslow_pmant_i19_f3_m19', 'pslow_pmant_i10_f12_m21']
+PMANT_QUICK = ['pslow_pmant_i19_f3_lead0', 'pslow_pmant_i38_f0_all', 'pslow_pmant_i19_f2_all', 'pslow_pmant_i3_f0_all', 'pslow_pmant_i0_f5_z2_all', 'pslow_pmant_i5_f5_m3', 'pslow_pmant_i2_f5_m4', 'pslow_pmant_i0_f8_z2_m4', 'pslow_pmant_i2_f3_all', 'pslow_pmant_i21_f0_m20']
 for nm in PMANT_CASES:
     K(nm, "slow", PSP, "parse_mantissa(int, frac, max_digits), vector mul_small/add_small replaced by ghost value recorders (contracts c12_small_mul / c12_small_add_from): big integer == first min(significant, max_digits) significant digits (leading fraction zeros skipped when there is no integer part), plus ONE digit '1' iff a later digit of integer or fraction is non-zero (trailing zeros never add it); count == digits in that integer", ["slow::parse_mantissa"], zflags=("stubbing",),
       strength="bounded", bound="digit-count shape %s (i integer digits, f fraction digits, z leading zeros, m/all = max_digits), all digit values symbolic" % nm[12:], features=["default", "compact"], timeout=1200, tier="quick" if nm in PMANT_QUICK else "thorough")
